@@ -41,6 +41,7 @@ func TestVerif_AnthropicReq(t *testing.T) {
 	zzverif.Parallel(len(scns), runtime.NumCPU(), func(sn int) {
 		b := tr.Block()
 		defer b.Flush()
+		defer b.Emit("End")
 		var q zzverifc12.Req
 		if err := json.Unmarshal(scns[sn], &q); err != nil {
 			panic(fmt.Sprintf("scenario %d: %v", sn, err))
